@@ -24,7 +24,7 @@ ASSUMPTIONS = ["the cryptography package computes the named primitives correctly
 
 def OBLIGATION_FILTER(name):
     return any(k in name for k in ('trace.same-cipher', 'trace.derived-material', 'trace.rfc3394', 'trace.fresh-key', 'trace.hmac',
-                                   'trace.signature', 'trace.kdf', 'trace.verify', '/exploration', '/fragment',
+                                   'trace.signature', 'trace.kdf', 'trace.verify', 'trace.derived-value', '/exploration', '/fragment',
                                    '/extract', 'raises.'))
 
 
